@@ -7,6 +7,20 @@ T3  emitted `_wrapped_methods` table of the sync gRPC, asyncio gRPC (and REST) t
     per-attempt deadline seen by the server, sleeps requested (api-core's sleep trapped, virtual clock, jitter either
     pinned to 1.0 = exact, or left random = upper bounds), surfaced exception — vs the Lean model.
 Oracle: the statement restated on the implementation's observables with `fractions.Fraction`, independent of the model.
+
+Second deepening round:
+* `_to_float`: the model now reads Python's whole sign / mantissa / exponent grammar (exact rationals; the harness rounds to
+  binary64, overflow = inf); generator: canonical JSON durations (0/3/6/9 fraction digits, padded, negative), fractions with
+  leading zeros, nanoseconds up to 10^30 (>= 2^53: two roundings — excluded point, run), exponent forms, mutated literals,
+  and the literals the model leaves out (blanks, `_`, inf/nan, non-ASCII digits: recorded as assumption).
+* services declared in files of proto SUB-PACKAGES of the API (also nested, also all-but-one): the config must name the proto
+  full name; the model computes the selector from the declaring file's package (`selectorService`); the root-package spelling
+  of such a service is generated as a decoy name (names nothing).
+* client-streaming and bidi RPCs are CALLED (sync gRPC: retried like any other RPC; asyncio: api-core retries only what
+  `wait_for_connection()` raises, so the status surfaces without retry — assumption, api-core's code).
+* unary and paged RPCs are also called through the emitted SYNC REST client against an HTTP loopback (plug-in op
+  `c09_rest_session`: virtual clock, pinned jitter, `timeout=` of each HTTP request recorded), over the status codes whose
+  api-core class survives the HTTP status (computed from the installed api-core).
 """
 from __future__ import annotations
 import copy, json, os, tempfile
@@ -27,8 +41,12 @@ MIXIN_RPCS = {      # api name -> (rpc, http verb, uri, python request class, pr
     "google.cloud.location.Locations": ("GetLocation", "get", "/v1/{name=projects/*/locations/*}",
                                         "google.cloud.location.locations_pb2:GetLocationRequest", "google.cloud.location.GetLocationRequest", {"name": "projects/p/locations/l"}),
 }
-EDGE_BACKOFFS = ["0s", "0.0s", "0.000001s", "0.000000001s", "3600s", "86400s", "1000000n", "30s", "0.999999999s"]
-EDGE_TIMEOUTS = ["3600s", "86400s", "315360000s", "1.000000001s", "0.999s", "1.0s", "100.5s", "0.1s"]
+EDGE_BACKOFFS = ["0s", "0.0s", "0.000001s", "0.000000001s", "3600s", "86400s", "1000000n", "30s", "0.999999999s",
+                 "0.05s", "1.05s", "0.025s", "0.005000s", "0.000s", "1.000000s", "50000000n", "3n", "01s", "00.50s"]
+EDGE_TIMEOUTS = ["3600s", "86400s", "315360000s", "1.000000001s", "0.999s", "1.0s", "100.5s", "0.1s",
+                 "1.05s", "2.025s", "10.000000s", "4.050s", "2050000000n", "007s"]
+# (not "315576000000s", the largest legal protobuf Duration: grpc-python itself fails a call whose timeout is that large with
+#  DEADLINE_EXCEEDED before anything is sent — a limit of the gRPC runtime, observed in the thorough tier; `_to_float` reads it fine: T2)
 EDGE_MULTS = [1.0, 2.0, 10, 100, 1.000001, 0.25, 0.999, 1e3, 7]
 BACKOFFS = ["0.1s", "0.25s", "0.5s", "1s", "1.5s", "2s", "0.125s", "0.3s", "0.75s", "0.05s", "3.5s", "0.010s",
             "1.000s", "0.100s", "4s", "0.2s"]
@@ -75,11 +93,18 @@ def gen_spec(r, idx, thorough=False):
         ms = []
         for m in r.sample(METHODS, r.randint(3, 5)):
             kind = "sstream" if m == "StreamBooks" or r.maybe(0.12) else ("paged" if m == "ListBooks" and r.maybe(0.6) else "unary")
-            if kind == "unary" and r.maybe(0.2):
-                kind = r.pick(["lro", "lro", "cstream", "bidi"])       # cstream / bidi: table entry only (retrying a consumed request stream is not in the statement)
+            if kind == "unary" and r.maybe(0.28):
+                kind = r.pick(["lro", "lro", "cstream", "cstream", "bidi"])   # cstream / bidi: table entry, and CALLED (sync: retried like any other; asyncio: see check_calls)
             ms.append({"name": m, "kind": kind})
-        svcs.append({"name": sname, "methods": ms})
-    pairs = [(f"{pkg}.{s['name']}", m["name"]) for s in svcs for m in s["methods"]]
+        sv = {"name": sname, "methods": ms}
+        if r.maybe(0.22):
+            sv["sub"] = r.pick(["admin", "admin", "beta.deep", "v1"])     # declared in a file of a sub-package of the API
+        svcs.append(sv)
+    if all(s.get("sub") for s in svcs) and r.maybe(0.5):
+        del svcs[0]["sub"]
+    pspec = {"package": pkg}
+    pairs = [(svc_full(pspec, s), m["name"]) for s in svcs for m in s["methods"]]
+    root_spelt = [(f"{pkg}.{s['name']}", m["name"]) for s in svcs if s.get("sub") for m in s["methods"]]
     mixins = [a for a in MIXIN_RPCS if r.maybe(0.18)]
     mixin_pairs = [(a, MIXIN_RPCS[a][0]) for a in mixins]
     entries = []
@@ -90,6 +115,9 @@ def gen_spec(r, idx, thorough=False):
             sv, me = r.pick(pairs)
             if mixin_pairs and r.maybe(0.15):
                 sv, me = r.pick(mixin_pairs)                                    # a mixin RPC named in the service config
+                names.append({"service": sv, "method": me})
+            elif root_spelt and r.maybe(0.2):
+                sv, me = r.pick(root_spelt)      # a sub-package service spelt under the API's root package: names no method
                 names.append({"service": sv, "method": me})
             elif roll < 0.60:
                 names.append({"service": sv, "method": me})
@@ -121,6 +149,21 @@ def gen_spec(r, idx, thorough=False):
     return spec
 
 
+def svc_pkg(spec, s):
+    """proto package of the file that declares the service: the API's package, or a sub-package of it"""
+    return spec["package"] + ("." + s["sub"] if s.get("sub") else "")
+
+
+def svc_full(spec, s):
+    """the service's proto full name — what a gRPC service config calls it"""
+    return f"{svc_pkg(spec, s)}.{s['name']}"
+
+
+def svc_model(spec, s):
+    """the same for the model: the INPUTS of `selectorService` (declaring file's package, service name)"""
+    return {"package": svc_pkg(spec, s).split("."), "name": s["name"]}
+
+
 def build_files(spec):
     pkg = spec["package"]
     base = pkg.replace(".", "/")
@@ -133,19 +176,44 @@ def build_files(spec):
     files = [f]
     for k, s in enumerate(spec["services"]):
         tgt = f
-        if spec.get("split_files") and k > 0:          # later services live in their own proto file of the same package
+        if s.get("sub"):                                # a service of a proto SUB-PACKAGE of the API (its own file and directory)
+            tgt = apigen.File(f"{base}/{s['sub'].replace('.', '/')}/svc{k + 1}.proto", f"{pkg}.{s['sub']}").dep(base + "/lib.proto")
+            files.append(tgt)
+        elif spec.get("split_files") and k > 0:          # later services live in their own proto file of the same package
             tgt = apigen.File(f"{base}/lib{k + 1}.proto", pkg).dep(base + "/lib.proto")
             files.append(tgt)
         svc = tgt.service(s["name"])
         for m in s["methods"]:
             kind = m["kind"]
+            # REST: unary and paged RPCs get an http rule (POST, whole request as body), so that they can be CALLED over REST
+            http = dict(http=("post", rest_uri(s, m)), body="*") if "rest" in spec.get("transport", "") and kind in ("unary", "paged") else {}
             if kind == "paged":
-                svc.method(m["name"], f".{pkg}.ListRequest", f".{pkg}.ListResponse")
+                svc.method(m["name"], f".{pkg}.ListRequest", f".{pkg}.ListResponse", **http)
             elif kind == "lro":
-                svc.method(m["name"], f".{pkg}.BookRequest", ".google.longrunning.Operation", lro=("Book", "Meta"))
+                svc.method(m["name"], f".{pkg}.BookRequest", ".google.longrunning.Operation", lro=(f"{pkg}.Book", f"{pkg}.Meta") if s.get("sub") else ("Book", "Meta"))   # (other package: fully qualified, as google.longrunning requires)
             else:
-                svc.method(m["name"], f".{pkg}.BookRequest", f".{pkg}.Book", ss=kind in ("sstream", "bidi"), cs=kind in ("cstream", "bidi"))
+                svc.method(m["name"], f".{pkg}.BookRequest", f".{pkg}.Book", ss=kind in ("sstream", "bidi"), cs=kind in ("cstream", "bidi"), **http)
     return files
+
+
+def rest_uri(s, m):
+    return f"/v1/{s['name'].lower()}/{m['name']}"
+
+
+_FAITHFUL = []
+
+
+def rest_faithful_codes():
+    """status codes whose api-core class comes back UNCHANGED from an HTTP reply carrying the class's own HTTP status
+    (api-core picks the class of an HTTP error by status alone; 400, 403, 409, 429, 500, 504 … are shared by several gRPC codes).
+    Read off the installed api-core, not hard-coded."""
+    if not _FAITHFUL:
+        from google.api_core import exceptions
+        for c in ERR_CODES:
+            cls = api_core_class(c)
+            if cls.code is not None and type(exceptions.from_http_status(int(cls.code), "x")) is cls:
+                _FAITHFUL.append(c)
+    return _FAITHFUL
 
 
 def service_yaml(spec):
@@ -154,7 +222,7 @@ def service_yaml(spec):
         return None
     pkg = spec["package"]
     y = {"type": "google.api.Service", "config_version": 3, "name": "lib.example.com",
-         "apis": [{"name": f"{pkg}.{s['name']}"} for s in spec["services"]] + [{"name": a} for a in spec.get("mixins", [])]}
+         "apis": [{"name": svc_full(spec, s)} for s in spec["services"]] + [{"name": a} for a in spec.get("mixins", [])]}
     rules = [{"selector": f"{a}.{MIXIN_RPCS[a][0]}", MIXIN_RPCS[a][1]: MIXIN_RPCS[a][2]} for a in spec.get("mixins", [])]
     if rules:
         y["http"] = {"rules": rules}
@@ -225,9 +293,20 @@ def api_core_class(code):
 
 
 import re
-DURATION_RE = re.compile(r"^(?:[0-9]+(?:\.[0-9]*)?s|\.[0-9]+s|[0-9]+n)$")
+DURATION_RE = re.compile(r"^(?:-?[0-9]+(?:\.[0-9]*)?s|-?\.[0-9]+s|-?[0-9]+n)$")     # decimal seconds (JSON Duration, optionally negative) / integer nanoseconds
 DUR_SAMPLES = ["1.5s", "30s", "0.250s", "250000000n", "0.000000001s", "7.s", ".5s", "30m", "s", "", "-1s", "1n", "999999999n",
-               "0s", "0.0s", "12.345s", "600s", "1x", "abc", "1.2.3s", "n", "1.5n", "3.14159s", "0.1s", "0.3s", "100s"]
+               "0s", "0.0s", "12.345s", "600s", "1x", "abc", "1.2.3s", "n", "1.5n", "3.14159s", "0.1s", "0.3s", "100s",
+               # second deepening round: every instance of the Lean theorems `toFloat_samples` / `toFloat_exponent_samples` …
+               "1.05s", "2.025s", "1.000000001s", "3n", "1e3s", "1.5E-3s", "-2.5e+1s", "+.5s", "-5n", "+7n", "1es", "e5s", ".e1s",
+               "+-1s", "-s", "1e5e5s", "1e3n", "1_0s", " 1s", "infs",
+               # … fractions with leading zeros, every canonical JSON width (0/3/6/9 digits), padded seconds, huge / tiny values
+               "0.05s", "0.005s", "0.000005s", "1.050s", "1.005000s", "1.000005000s", "007s", "0007.0700s", "315576000000s",
+               "315576000000.999999999s", "-315576000000.999999999s", "0.999999999s", "0.000000000s", "-0s", "-0.0s", "00n", "0n",
+               "9007199254740993n", "18014398509481985n", "123456789012345678901234567890n", "1e22s", "1e23s", "1E-7s", "1e-400s",
+               "1e400s", "-1e400s", "4.35s", "0.1e1s", "1.e2s", ".5e-1s",
+               # … and literals the model leaves out on purpose (blanks, underscores, inf/nan, non-ASCII digits)
+               "1_000s", "1 s", "\t2s", "2\ns", "nans", "nan", "-infs", "Infinitys", "1__0s", "_1s", "1_s", "\u0661\u0662s", "\uff11s",
+               "\u0663n", "1_0n", " 5n", "5 n", "0x10s", "0x10n", "1e1_0s", "--1s", "++1s", "1.5.s", "..s", ".s", "+s", "es", "1ee1s"]
 
 
 _TO_FLOAT_VIA_BUILD = [False]
@@ -243,6 +322,8 @@ def real_to_float(s):
             return gapi._ProtoBuilder._to_float(None, s)
         except ValueError:
             return "ValueError"
+        except OverflowError:
+            return "OverflowError"
         except (AttributeError, TypeError):
             _TO_FLOAT_VIA_BUILD[0] = True
     if not s:
@@ -256,8 +337,26 @@ def real_to_float(s):
         return api.services["acme.lib.v1.Library"].methods["GetBook"].timeout
     except ValueError:
         return "ValueError"
+    except OverflowError:
+        return "OverflowError"
     finally:
         os.unlink(path)
+
+
+def round_binary64(q):
+    """the exact rational, correctly rounded to binary64 (what `float("…")` does); overflow gives ±inf"""
+    try:
+        return float(q)
+    except OverflowError:
+        return float("inf") if q > 0 else float("-inf")
+
+
+def canonical_duration(r):
+    """a duration the way protobuf's JSON printer writes it: seconds, then 0 / 3 / 6 / 9 fraction digits"""
+    secs = r.pick([0, 0, 1, r.randrange(0, 100), r.randrange(0, 10 ** 6), 315576000000])
+    width = r.pick([0, 3, 6, 9])
+    frac_digits = "".join(r.choice("0000123456789") for _ in range(width))
+    return ("-" if r.maybe(0.08) else "") + str(secs) + ("." + frac_digits if width else "") + "s", width
 
 
 def check_helpers(ctx, r):
@@ -269,6 +368,32 @@ def check_helpers(ctx, r):
         if r.maybe(0.08):
             s = "." + (fp or "5")
         samples.append(s + r.pick(["s", "s", "s", "s", "m", "S"]) if not r.maybe(0.15) else str(r.randrange(0, 10 ** r.randint(1, 12))) + "n")
+    for _ in range(ctx.n(80, 1500)):
+        roll = r.random()
+        if roll < 0.35:
+            s, width = canonical_duration(r)
+            ctx.count("t2_to_float_shape", f"canonical JSON, {width} fraction digits")
+        elif roll < 0.5:       # fraction with leading zeros (what a digit-wise re-assembly loses), 1..12 digits
+            z = r.randint(1, 8)
+            s = str(r.randrange(0, 50)) + "." + "0" * z + "".join(r.choice("123456789") for _ in range(r.randint(1, 4))) + "s"
+            ctx.count("t2_to_float_shape", "fraction with leading zeros")
+        elif roll < 0.62:      # nanoseconds: small, around 2^53 (int -> float conversion stops being exact), huge; signed
+            n = r.pick([r.randrange(0, 10 ** 9), r.randrange(10 ** 9, 10 ** 15), 2 ** 53 + r.randrange(0, 1000), r.randrange(2 ** 53, 2 ** 64),
+                        r.randrange(10 ** 25, 10 ** 30)])
+            s = r.pick(["", "", "", "-", "+"]) + "0" * r.pick([0, 0, 0, 2]) + str(n) + "n"
+            ctx.count("t2_to_float_shape", "nanoseconds")
+        elif roll < 0.8:       # sign / exponent forms of Python's float grammar
+            mant = r.pick([str(r.randrange(0, 1000)), f"{r.randrange(0, 100)}.{r.randrange(0, 1000):03d}", f".{r.randrange(0, 100):02d}", f"{r.randrange(0, 9)}."])
+            ex = r.pick(["", "", "e", "E"])
+            s = r.pick(["", "", "-", "+"]) + mant + (ex + r.pick(["", "", "-", "+"]) + str(r.pick([0, 1, 2, 3, 9, 15, 22, 23, 30, 308, 309, 330])) if ex else "") + "s"
+            ctx.count("t2_to_float_shape", "sign / exponent")
+        else:                  # one mutation of a good literal: an inserted / replaced character
+            base = r.pick(["1.5s", "30s", "0.25s", "250000000n", "12.345s", "1e3s"])
+            k = r.randrange(0, len(base))
+            ch = r.choice("_ +-.eEnsNS0x\t\u0661,;")
+            s = base[:k] + ch + base[k + (1 if r.maybe(0.5) else 0):]
+            ctx.count("t2_to_float_shape", "mutated literal")
+        samples.append(s)
     res = ctx.driver.ask([{"op": "c09.to_float", "s": s} for s in samples])
     for s, mo in zip(samples, res):
         impl = real_to_float(s)
@@ -276,14 +401,29 @@ def check_helpers(ctx, r):
         ctx.traces += 1
         ctx.count("t2_to_float", "value" if mo["value"] is not None else "outside-model")
         if mo["value"] is None:
-            if impl != "ValueError":
-                ctx.assume(f"_to_float accepts literals outside the plain-decimal grammar of the model (e.g. {s!r} -> {impl}); service configs use decimal seconds")
+            if impl not in ("ValueError", "OverflowError"):
+                ctx.count("t2_to_float_outside", "accepted by Python, left out of the model")
+                ctx.assume("_to_float accepts literals outside the grammar of the model — blanks around the number, `_` between digits, inf/nan, "
+                           "non-ASCII digits (e.g. '1_000s' -> 1000.0, '\\u0661\\u0662s' -> 12.0); service configs use decimal seconds")
+            else:
+                ctx.count("t2_to_float_outside", "rejected by both")
             continue
-        want = float(frac(mo["value"]))            # correctly rounded, like float("…") and int/1e9
+        q = frac(mo["value"])
+        want = round_binary64(q)            # correctly rounded, like float("…")
+        if s.endswith("n") and abs(q) * 10 ** 9 >= 2 ** 53:
+            # `int(…) / 1e9`: the integer is rounded to binary64 BEFORE the division (two roundings; beyond float range: OverflowError)
+            try:
+                want = float(int(q * 10 ** 9)) / 1e9
+            except OverflowError:
+                want = "OverflowError"
+            ctx.count("excluded_point", "nanosecond count of 2^53 or more (104 days): int -> float conversion rounds before the division")
+            if want != round_binary64(q):
+                ctx.assume("`n` durations of 2^53 ns (104 days) or more are converted with two roundings: int -> float, then / 1e9 "
+                           "(e.g. '18014398509481985n'); the result can differ from the correctly rounded value in the last bit")
         if impl != want:
-            ctx.disagree("T2:c09.to_float", f"{s!r}: model {frac(mo['value'])} ({want!r}) vs impl {impl!r}", {"duration": s})
-        if DURATION_RE.match(s):     # oracle: a well-formed duration literal denotes its decimal value
-            if impl != float(dur_fraction(s)):
+            ctx.disagree("T2:c09.to_float", f"{s!r}: model {q if abs(q) < 10 ** 40 else '…'} ({want!r}) vs impl {impl!r}", {"duration": s})
+        if DURATION_RE.match(s) and not (s.endswith("n") and abs(q) * 10 ** 9 >= 2 ** 53):     # oracle: a well-formed duration literal denotes its decimal value
+            if impl != round_binary64(dur_fraction(s)):
                 ctx.fail("to-float-value", f"_to_float({s!r}) = {impl!r}, the literal denotes {dur_fraction(s)} s", {"duration": s})
     # exception table: all 17 codes, 17 x 17 isinstance
     tab = ctx.driver.ask([{"op": "c09.exc_table"}])[0]
@@ -305,7 +445,7 @@ def gen_calls(r, spec, ctx_n):
     cfg = spec["config"]
     plans = []
     for s in spec["services"]:
-        svc_full = f"{spec['package']}.{s['name']}"
+        sfull = svc_full(spec, s)
         for a in spec.get("mixins", []):          # mixin RPCs are called through every service's client
             rpcname = MIXIN_RPCS[a][0]
             named = statement_defaults(cfg, a, rpcname)["named"]
@@ -313,9 +453,7 @@ def gen_calls(r, spec, ctx_n):
                 plans.append({"service": s["name"], "svc_full": a, "method": rpcname, "kind": "mixin", "replies": replies,
                               "call_kwargs": ck, "mixin_named": named})
         for m in s["methods"]:
-            if m["kind"] in ("cstream", "bidi"):
-                continue                           # table entry only
-            st = statement_defaults(cfg, svc_full, m["name"])
+            st = statement_defaults(cfg, sfull, m["name"])
             seqs = []
             rp = st["retry"]
             codes = rp["codes"] if rp else []
@@ -344,15 +482,15 @@ def gen_calls(r, spec, ctx_n):
                   "multiplier": r.pick([1.0, 2.0]), "deadline": r.pick([1.25, 3.125, None])}
             seqs.append(([ex] * r.pick([1, 2, 6]) + [r.pick(["OK", r.pick([c for c in ERR_CODES if c != ex])])], {"retry": xr}))
             for replies, ck in seqs:
-                plans.append({"service": s["name"], "svc_full": svc_full, "method": m["name"], "kind": m["kind"],
-                              "replies": replies, "call_kwargs": ck})
+                plans.append({"service": s["name"], "svc_full": sfull, "svc_model": svc_model(spec, s), "method": m["name"],
+                              "kind": m["kind"], "replies": replies, "call_kwargs": ck})
     return plans
 
 
 def model_op(spec, plan, jitter=1):
     ck = plan["call_kwargs"]
     op = {"op": "c09.call", "configs": ([spec["decoy"]] if spec.get("decoy") else []) + [spec["config"]],
-          "mixin": plan["kind"] == "mixin", "service": plan["svc_full"], "method": plan["method"],
+          "mixin": plan["kind"] == "mixin", "service": plan.get("svc_model", plan["svc_full"]), "method": plan["method"],
           "replies": plan["replies"] + ["OK"],       # the loopback server answers OK once its script is used up
           "jitter": [], "jitter_tail": jitter, "retry": "default", "timeout": "default"}
     if ck.get("retry") == "none":
@@ -414,13 +552,15 @@ def run_api(ctx, r, spec, label, plans=None):
         ops, keys = [], []
         for s in spec["services"]:
             for m in s["methods"]:
-                ops.append({"op": "c09.defaults", "configs": configs, "service": f"{pkg}.{s['name']}", "method": m["name"]})
+                ops.append({"op": "c09.defaults", "configs": configs, "service": svc_model(spec, s), "method": m["name"]})
                 keys.append((s["name"], m["name"]))
         model = dict(zip(keys, ctx.driver.ask(ops)))
         for (sn, mn), mo in model.items():
-            meth = api.services[f"{pkg}.{sn}"].methods[mn]
+            sobj = next(x for x in spec["services"] if x["name"] == sn)
+            meth = api.services[svc_full(spec, sobj)].methods[mn]
             payload = {"spec": spec, "service": sn, "method": mn}
-            st = statement_defaults(spec["config"], f"{pkg}.{sn}", mn)
+            st = statement_defaults(spec["config"], svc_full(spec, sobj), mn)
+            ctx.count("service_layout", "sub-package" if sobj.get("sub") else "api package")
             ctx.case({"service": sn, "method": mn, "named": st["named"], "retry": bool(st["retry"]), "timeout": str(st["timeout"])},
                      distinct_key=["defaults", json.dumps(spec["config"], sort_keys=True), pkg, sn, mn])
             ctx.count("method_class", ("named" if st["named"] else "unnamed") + ("+retry" if st["retry"] else "") + ("+timeout" if st["timeout"] is not None else ""))
@@ -455,11 +595,11 @@ def run_api(ctx, r, spec, label, plans=None):
         import gapic.utils as gu
         sessions, meta = [], []
         mixin_rpcs = sorted(api.mixin_api_methods.keys())          # the real schema object's list
-        tops = [{"op": "c09.table", "configs": configs, "service": f"{pkg}.{s['name']}", "methods": [m["name"] for m in s["methods"]],
+        tops = [{"op": "c09.table", "configs": configs, "service": svc_model(spec, s), "methods": [m["name"] for m in s["methods"]],
                  "mixins": mixin_rpcs} for s in spec["services"]]
         tables = {s["name"]: t for s, t in zip(spec["services"], ctx.driver.ask(tops))}
         for s in spec["services"]:
-            svc = api.services[f"{pkg}.{s['name']}"]
+            svc = api.services[svc_full(spec, s)]
             loc = rpc.py_locations(api, svc)
             loc["rest_asyncio"] = f"{loc['service_module']}.transports.rest_asyncio:Async{svc.name}RestTransport"
             kinds = ["grpc", "grpc_asyncio"] + (["rest"] if "rest" in spec["transport"] else []) + \
@@ -477,7 +617,7 @@ def run_api(ctx, r, spec, label, plans=None):
         if 0.5 in modes:
             mres_by[0.5] = ctx.driver.ask([model_op(spec, p, 0.5) for p in plans])
         for s in spec["services"]:
-            svc = api.services[f"{pkg}.{s['name']}"]
+            svc = api.services[svc_full(spec, s)]
             loc = rpc.py_locations(api, svc)
             for asy in (False, True):
                 for jitter in modes:
@@ -510,14 +650,18 @@ def run_api(ctx, r, spec, label, plans=None):
                             cname = gu.to_snake_case(rpcname)
                         else:
                             m = svc.methods[p["method"]]
-                            path = f"/{pkg}.{s['name']}/{p['method']}"
+                            path = f"/{svc_full(spec, s)}/{p['method']}"
                             req_full, pyreq = m.input.ident.proto, rpc.py_type(m.input)
                             reqd = {"parent": "x"} if p["kind"] == "paged" else {"name": "x"}
                             cname = gu.to_snake_case(m.client_method_name)
-                        calls.append({"method": cname, "mode": "request-instance", "py_request": pyreq,
-                                      "request_b64": codec.encode_b64(req_full, reqd),
-                                      "consume": {"unary": "value", "sstream": "stream", "paged": "pager", "lro": "value", "mixin": "value"}[p["kind"]],
-                                      "call_kwargs": ck, "script": {path: [{"code": c} for c in p["replies"]]}})
+                        call = {"method": cname, "mode": "request-instance", "py_request": pyreq,
+                                "request_b64": codec.encode_b64(req_full, reqd),
+                                "consume": {"unary": "value", "sstream": "stream", "paged": "pager", "lro": "value", "mixin": "value",
+                                            "cstream": "value", "bidi": "stream"}[p["kind"]],
+                                "call_kwargs": ck, "script": {path: [{"code": c} for c in p["replies"]]}}
+                        if p["kind"] in ("cstream", "bidi"):      # `requests=` iterator of two messages (a retried attempt re-reads the SAME iterator)
+                            call["stream_requests"] = [codec.encode_b64(req_full, reqd), codec.encode_b64(req_full, {"name": "y"})]
+                        calls.append(call)
                         kept.append((p, mo))
                     if not calls:
                         continue
@@ -525,12 +669,59 @@ def run_api(ctx, r, spec, label, plans=None):
                                      "transport": loc["grpc_asyncio" if asy else "grpc"], "async": asy, "trap_sleep": True,
                                      "virtual_clock": True, "jitter": jitter, "record_timeouts": True, "calls": calls})
                     meta.append(("calls", s, asy, (jitter, kept)))
+        # ---------------- the same calls through the emitted sync REST client (second deepening round): unary and paged RPCs,
+        # fault sequences over the status codes that api-core maps back to the same class from the HTTP status alone
+        if "rest" in spec["transport"]:
+            from google.api_core import exceptions as _exc
+            faithful = set(rest_faithful_codes())
+            ctx.assume("REST calls: only fault sequences over status codes whose api-core class is recovered from the HTTP status alone ("
+                       + ", ".join(sorted(faithful)) + "); api-core maps an HTTP error to a class by its status, so codes that share a status "
+                       "(400, 403, 409, 429, 500, 504) are not told apart over REST — api-core's behaviour, not generator code")
+            for s in spec["services"]:
+                svc = api.services[svc_full(spec, s)]
+                loc = rpc.py_locations(api, svc)
+                for jitter in modes:
+                    calls, kept = [], []
+                    for p, mo in [(p, mo) for p, mo in zip(plans, mres_by[jitter]) if p["service"] == s["name"]]:
+                        if "attempts" not in mo or p["kind"] not in ("unary", "paged") or not all(c == "OK" or c in faithful for c in p["replies"]):
+                            continue
+                        ck = copy.deepcopy(p["call_kwargs"])
+                        xr = ck.get("retry") if isinstance(ck.get("retry"), dict) else None
+                        if xr is not None:
+                            xr["async"] = False
+                        if ck.get("timeout") == "none":
+                            ck["timeout"] = None
+                        dl = None
+                        if xr is not None:
+                            dl = None if xr["deadline"] is None else Fraction(Decimal(repr(xr["deadline"])))
+                        elif ck.get("retry") != "none":
+                            st = statement_defaults(spec["config"], p["svc_full"], p["method"])
+                            dl = st["retry"]["deadline"] if st["retry"] else None
+                        if near_threshold(mo, dl, jitter or 1):
+                            continue
+                        if jitter is None and mo["result"] == "retry_error":
+                            continue
+                        m = svc.methods[p["method"]]
+                        script = []
+                        for c in p["replies"]:
+                            if c == "OK":
+                                script.append({"status": 200, "body": "{}"})
+                            else:
+                                h = int(api_core_class(c).code)
+                                script.append({"status": h, "body": json.dumps({"error": {"code": h, "message": "scripted", "status": c}})})
+                        calls.append({"method": gu.to_snake_case(m.client_method_name), "mode": "request-instance", "py_request": rpc.py_type(m.input),
+                                      "request_b64": codec.encode_b64(m.input.ident.proto, {"parent": "x"} if p["kind"] == "paged" else {"name": "x"}),
+                                      "consume": "pager" if p["kind"] == "paged" else "value", "call_kwargs": ck, "script": script})
+                        kept.append((p, mo))
+                    if calls:
+                        sessions.append({"op": "c09_rest_session", "client": loc["client"], "transport": loc["rest"], "jitter": jitter, "calls": calls})
+                        meta.append(("rest-calls", s, False, (jitter, kept)))
         out = libhost.run(root, sessions, timeout=900)
         for (what, s, a, extra), sess in zip(meta, out):
             if what == "table":
                 check_table(ctx, spec, s, a, sess, extra)
             else:
-                check_calls(ctx, spec, s, a, extra[0], extra[1], sess)
+                check_calls(ctx, spec, s, a, extra[0], extra[1], sess, rest=(what == "rest-calls"))
     finally:
         for pth in [cfgpath] + extra_paths:
             try:
@@ -575,7 +766,7 @@ def check_table(ctx, spec, s, kind, sess, extra):
                            "google.cloud.location.Locations/…) gets the literal default_timeout=None and no default retry even when the service config names it")
             st = MIXIN_NONE
         else:
-            st = statement_defaults(spec["config"], f"{pkg}.{s['name']}", name)
+            st = statement_defaults(spec["config"], svc_full(spec, s), name)
         # ---- oracle: the emitted defaults ARE the entry's values
         t = ent["timeout"]
         if (t is None) != (st["timeout"] is None) or (t is not None and t != float(st["timeout"])):
@@ -624,16 +815,19 @@ def check_table(ctx, spec, s, kind, sess, extra):
                 ctx.disagree("T3:c09.table.retry", f"{s['name']}.{name} ({kind}): model {want} vs impl {got}", payload)
 
 
-def check_calls(ctx, spec, s, asy, jitter, kept, sess):
+def check_calls(ctx, spec, s, asy, jitter, kept, sess, rest=False):
+    """`rest`: the calls went through the sync REST client (HTTP loopback: no deadline is visible at the server; the
+    `timeout=` of each HTTP request is recorded at the client's session)"""
     pkg = spec["package"]
     if "calls" not in sess:
-        ctx.fail("session-failed", f"T3 session failed ({'async' if asy else 'sync'}): {str(sess)[-400:]}", {"spec": spec})
+        ctx.fail("session-failed", f"T3 session failed ({'rest' if rest else 'async' if asy else 'sync'}): {str(sess)[-400:]}", {"spec": spec})
         return
     for (p, mo), res in zip(kept, sess["calls"]):
         ck = p["call_kwargs"]
-        payload = {"spec": spec, "plan": p, "async": asy, "jitter": jitter}
-        ctx.case({"method": p["method"], "replies": p["replies"][:6], "call_kwargs": ck, "async": asy, "jitter": jitter},
-                 distinct_key=["call", json.dumps(spec["config"], sort_keys=True), p["svc_full"], p["method"], json.dumps(p["replies"]), json.dumps(ck, sort_keys=True), asy, jitter])
+        payload = {"spec": spec, "plan": p, "async": asy, "jitter": jitter, "rest": rest}
+        ctx.case({"method": p["method"], "replies": p["replies"][:6], "call_kwargs": ck, "async": asy, "jitter": jitter, "rest": rest},
+                 distinct_key=["call", json.dumps(spec["config"], sort_keys=True), p["svc_full"], p["method"], json.dumps(p["replies"]), json.dumps(ck, sort_keys=True), asy, jitter, rest])
+        ctx.count("call_transport", "rest" if rest else ("grpc_asyncio" if asy else "grpc"))
         ctx.count("fault_sequence", f"{min(len(p['replies']) - 1, 9)}err+{p['replies'][-1] if p['replies'][-1] == 'OK' else 'ERR'}")
         ctx.count("call_kind", ("explicit:" + "+".join(sorted(ck))) if ck else "defaults")
         ctx.count("call_method_kind", p["kind"])
@@ -641,6 +835,9 @@ def check_calls(ctx, spec, s, asy, jitter, kept, sess):
             ctx.count("status_code_served", c)
         ctx.count("model_result", mo["result"])
         ctx.count("model_attempts", min(len(mo["attempts"]), 10))
+        if rest:
+            ctx.count("rest_attempts_observed", min(len([x for x in res["server"] if x["path"].endswith("/" + p["method"])]), 10))
+            ctx.count("rest_outcome", res.get("raised") or "ok")
         if any(frac(a["start"]) > 0 and a["timeout"] is not None and a["timeout"] == mo["attempts"][0]["timeout"] for a in mo["attempts"][1:]):
             ctx.count("model_branch", "remaining<1: whole timeout again")
         srv = [x for x in res["server"] if x["path"].endswith("/" + p["method"])]
@@ -669,6 +866,15 @@ def check_calls(ctx, spec, s, asy, jitter, kept, sess):
             ctx.count("skipped", "inconclusive: the real time the call took reaches the nearest threshold of the loop")
             continue
         lag = Fraction(1, 20) + Fraction(wall)
+        if asy and p["kind"] in ("cstream", "bidi") and n == 1 and p["replies"][0] != "OK" and raised == api_core_class(p["replies"][0]).__name__ \
+                and (len(mo["attempts"]) > 1 or mo["raised"] != raised):
+            # the same mechanism, deterministic here: the status of a stream-unary / stream-stream aio call is delivered when the
+            # call object is awaited / iterated — after `wait_for_connection()`, outside api-core's retry wrapper
+            ctx.count("skipped", "asyncio client-streaming/bidi: error delivered after wait_for_connection (api-core, not generator code)")
+            ctx.assume("asyncio client-streaming / bidi methods: api-core's grpc_helpers_async retries only errors raised by wait_for_connection(); the status of "
+                       "such a call arrives when the returned call object is awaited / iterated and surfaces without retry (the table entry carries the "
+                       "default retry all the same: checked by introspection; sync client-streaming / bidi calls ARE retried and are checked on the wire)")
+            continue
         if asy and p["kind"] == "sstream" and n == 1 and p["replies"][0] != "OK" and raised == api_core_class(p["replies"][0]).__name__ and len(mo["attempts"]) > 1:
             # api-core's asyncio stream wrapper only retries what `wait_for_connection()` raises; on the loopback the status
             # of an immediately failing stream occasionally arrives after it — the error then surfaces on iteration
@@ -677,7 +883,7 @@ def check_calls(ctx, spec, s, asy, jitter, kept, sess):
             continue
         trs = [None if (x["time_remaining"] is None or x["time_remaining"] > 1e15) else x["time_remaining"] for x in srv]   # grpc reports "no deadline" as ~2^63
         cts = [t for pth, t in res.get("timeouts", []) if pth.endswith("/" + p["method"])]     # timeout= of each stub invocation (client side)
-        tag = f"{p['service']}.{p['method']} ({'async' if asy else 'sync'}, jitter={jitter}) replies={p['replies'][:5]}{'…' if len(p['replies']) > 5 else ''} kwargs={ck}"
+        tag = f"{p['service']}.{p['method']} ({'rest' if rest else 'async' if asy else 'sync'}, jitter={jitter}) replies={p['replies'][:5]}{'…' if len(p['replies']) > 5 else ''} kwargs={ck}"
         # ---------------- oracle (statement, independent of the model)
         st = statement_defaults(spec["config"], p["svc_full"], p["method"]) if p["kind"] != "mixin" else MIXIN_NONE   # (assumption recorded by check_table)
         if isinstance(ck.get("retry"), dict):
@@ -732,6 +938,10 @@ def check_calls(ctx, spec, s, asy, jitter, kept, sess):
             if T is None:
                 if tr is not None or ct is not None:
                     ctx.fail(key_prefix + "unexpected-deadline", f"{tag}: attempt {i} carries a deadline (client {ct}, server {tr}) but no timeout applies", payload)
+            elif rest:
+                # HTTP: the deadline is the `timeout=` of the request (nothing travels to the server)
+                if ct is None or not (0 < ct <= float(T) + 1e-6) or (i == 0 and abs(ct - float(T)) > 0.05):
+                    ctx.fail(key_prefix + "call-deadline", f"{tag}: attempt {i} request timeout {ct}, timeout is {T}", payload)
             else:
                 # the server sees the deadline through grpc's coarse `grpc-timeout` encoding (rounded up); the client-side value is exact
                 if tr is None or ct is None:
@@ -778,17 +988,19 @@ def all_codes_spec():
     other = ERR_CODES[1::2]
     return {"package": "acme.lib.v1", "transport": "grpc+rest",
             "services": [{"name": "Library", "methods": [{"name": "GetBook", "kind": "unary"}, {"name": "MoveBook", "kind": "unary"},
-                                                          {"name": "StreamBooks", "kind": "sstream"}, {"name": "Ping", "kind": "unary"}]}],
+                                                          {"name": "StreamBooks", "kind": "sstream"}, {"name": "Ping", "kind": "unary"},
+                                                          {"name": "UploadBooks", "kind": "cstream"}]}],
             "config": {"methodConfig": [
                 {"name": [{"service": "acme.lib.v1.Library", "method": "GetBook"}], "timeout": "30s",
                  "retryPolicy": {"maxAttempts": 3, "initialBackoff": "0.1s", "maxBackoff": "1s", "backoffMultiplier": 1.3, "retryableStatusCodes": half}},
-                {"name": [{"service": "acme.lib.v1.Library", "method": "MoveBook"}, {"service": "acme.lib.v1.Library", "method": "StreamBooks"}], "timeout": "20.5s",
+                {"name": [{"service": "acme.lib.v1.Library", "method": "MoveBook"}, {"service": "acme.lib.v1.Library", "method": "StreamBooks"},
+                          {"service": "acme.lib.v1.Library", "method": "UploadBooks"}], "timeout": "20.5s",
                  "retryPolicy": {"initialBackoff": "0.25s", "maxBackoff": "2s", "backoffMultiplier": 2, "retryableStatusCodes": other}}]}}
 
 
 def all_codes_plans(spec):
     plans = []
-    for meth, kind in (("GetBook", "unary"), ("MoveBook", "unary"), ("StreamBooks", "sstream"), ("Ping", "unary")):
+    for meth, kind in (("GetBook", "unary"), ("MoveBook", "unary"), ("StreamBooks", "sstream"), ("Ping", "unary"), ("UploadBooks", "cstream")):
         for c in ERR_CODES:
             plans.append({"service": "Library", "svc_full": "acme.lib.v1.Library", "method": meth, "kind": kind,
                           "replies": [c, "OK"], "call_kwargs": {}})
@@ -828,8 +1040,8 @@ def run(ctx):
     ctx.rule = ("service configs (1..4 entries; names: exact, service-wide, catch-all {}, other service/package, unknown method, missing key, "
                 "mixin RPC; timeout with/without retryPolicy; fractional, `n`, zero, tiny and huge durations; absent/zero back-off fields; multiplier "
                 "edge values; 1..16 status codes; optionally an earlier retry-config file) x every RPC of 1..3 services in one or several proto "
-                "files (unary, server-streaming, paged, LRO; client-streaming/bidi and mixin RPCs: table entries, mixins also called) x "
-                "{grpc, grpc_asyncio, rest, rest_asyncio} tables x fault sequences (retryable^k then OK / non-retryable / run into the deadline; "
+                "files, in the API's package or in (nested) proto sub-packages (unary, server-streaming, paged, LRO, client-streaming, bidi; "
+                "mixin RPCs) x {grpc, grpc_asyncio, rest, rest_asyncio} tables x calls through {grpc, grpc_asyncio, rest (unary/paged)} x fault sequences (retryable^k then OK / non-retryable / run into the deadline; "
                 "explicit retry / timeout / None overrides) x {sync, asyncio} x {jitter pinned to 1, random, (thorough) pinned to 1/2}; "
                 "distinct by (config, method) for defaults, (config, method, transport) for table entries, (config, method, replies, kwargs, "
                 "client kind, jitter mode) for calls; non-trivial = every one of them")
@@ -884,10 +1096,15 @@ CLAIM = dict(
           "a model-independent oracle restating the property. Since the deepening round also: the whole table (`wrappedTable`: own RPCs then "
           "mixin RPCs, which never get defaults), the last-retry-config-wins rule, service-level/catch-all names selecting nothing, "
           "`attempts <= retryable prefix + 1` for every run, one wait between attempts, set semantics of the predicate; tables of all four "
-          "transports incl. rest_asyncio; LRO, mixin and multi-file APIs."),
+          "transports incl. rest_asyncio; LRO, mixin and multi-file APIs. Second round: `_to_float` proved to read EVERY decimal literal "
+          "(any number of digits, leading zeros, sign, the `n` form; round trip through the canonical rendering; `S.NNNNNNNNNs` = `(S*10^9+N)n`), "
+          "Python's sign/exponent grammar modelled; the selector of a sub-package service is its proto full name (entries naming other "
+          "services select nothing); sub-package layouts, client-streaming/bidi calls and sync REST calls in T3."),
     technique="Lean 4 theorems (induction on fault sequences over exact rationals) + differential T2/T3 with fault injection against the emitted clients",
     design="7.9",
     note=("api-core's retry loop, TimeToDeadlineTimeout and the status->exception table are a hand-written reference model (validated "
           "differentially, not verified). Real time and the jitter distribution are not covered: sleeps are trapped, time is virtual, "
-          "random jitter is only checked against its upper bound. Known finding: OK among retryableStatusCodes retries every error."),
+          "random jitter is only checked against its upper bound. Known finding: OK among retryableStatusCodes retries every error. "
+          "Over REST only the status codes whose api-core class is recovered from the HTTP status are served; asyncio client-streaming/bidi "
+          "calls are not retried by api-core (assumption); rest_asyncio: table only."),
 )
